@@ -138,8 +138,8 @@ func layout(r *hx.Rng, toks []string, mode int) string {
 // ---------------------------------------------------------------------------------------------------------------
 
 var (
-	numAtoms = []string{"0", "1", "2", "3", "7", "10", "2.5", "0.5", "100", "1e2", "1e-2", "2.5e-1", "$x", "$y", "$z", "$h", "$n", "$foo.bar", "$a_1", "$sp",
-		"$e", "$neg", "$big", "$tiny", "$max4", "$mid", "$inf", "$a1e", "$r2e", "$x.1e", "$a#1e", "$rate", "$a1e", "$r2e", "$ch", "$ch2", "$A1e", "$x.1e"}
+	numAtoms = []string{"0", "1", "2", "3", "7", "10", "2.5", "0.5", "100", "1e2", "1e-2", "2.5e-1", "1e+2", "2.5E-1", "2.5E+1", "1E2", "1.5e+1", "3E-2", "$x", "$y", "$z", "$h", "$n", "$foo.bar", "$a_1", "$sp",
+		"$e", "$neg", "$big", "$tiny", "$max4", "$mid", "$inf", "$a1e", "$r2e", "$x.1e", "$a#1e", "$rate", "$a1e", "$r2e", "$ch", "$ch2", "$A1e", "$x.1e", "$A1E"}
 	strAtoms = []string{"foo", "bar", "yes", "no", "abc", "x1", "true", "false", "$undefined", "$str", "$bool", "$ws", "$expr", "$paren", "$comma", "$fn"}
 	arith    = []string{"+", "-", "*", "/", "%", "^", "+", "-", "*", "/"}
 	cmpOps   = []string{"==", "!=", "<", "<=", ">", ">="}
